@@ -503,7 +503,9 @@ fn guarded<F: FnOnce() -> String>(f: F) -> Outcome {
 
 fn run_fa(out: &mut dyn Write, cap: usize, src: Src, pol: PolSpec, ops: &[Op], log: Log) {
     let hp = HPol { spec: pol, calls: 0, log: log.clone() };
-    let mut reader = Some(fasta::Reader::with_capacity(src, cap).set_policy(hp));
+    // the default constructor where the case asks for the default capacity (BUFSIZE = 64 KiB, Gen/ConstGen.v)
+    let mut reader =
+        Some(if cap == 65536 { fasta::Reader::new(src).set_policy(hp) } else { fasta::Reader::with_capacity(src, cap).set_policy(hp) });
     let mut sets = vec![fasta::RecordSet::default(), fasta::RecordSet::default()];
     let mut saved: Vec<fasta::Position> = vec![];
     for op in ops {
@@ -575,9 +577,17 @@ fn run_fa(out: &mut dyn Write, cap: usize, src: Src, pol: PolSpec, ops: &[Op], l
                 }
                 Op::Iter(slot) => {
                     name = format!("I{}", slot);
-                    let set = &sets[*slot];
+                    let set = &mut sets[*slot];
                     guarded(|| {
+                        // re-iteration of a kept set; releasing its spare capacity in between must not change what it holds
+                        let before: Vec<String> = (&*set).into_iter().map(|r| dump_fa(&r)).collect();
+                        set.shrink_buffer_to_fit();
+                        let _ = set.buf_capacity();
+                        let set = &*set;
                         let recs: Vec<String> = set.into_iter().map(|r| dump_fa(&r)).collect();
+                        if recs != before {
+                            return "set-iter-contract-broken: contents changed by shrink_buffer_to_fit".to_string();
+                        }
                         if !iter_contract_ok(set.into_iter(), set.len()) {
                             return "set-iter-contract-broken".to_string();
                         }
@@ -668,7 +678,8 @@ fn run_fa(out: &mut dyn Write, cap: usize, src: Src, pol: PolSpec, ops: &[Op], l
 
 fn run_fq(out: &mut dyn Write, cap: usize, src: Src, pol: PolSpec, ops: &[Op], log: Log) {
     let hp = HPol { spec: pol, calls: 0, log: log.clone() };
-    let mut reader = Some(fastq::Reader::with_capacity(src, cap).set_policy(hp));
+    let mut reader =
+        Some(if cap == 65536 { fastq::Reader::new(src).set_policy(hp) } else { fastq::Reader::with_capacity(src, cap).set_policy(hp) });
     let mut sets = vec![fastq::RecordSet::default(), fastq::RecordSet::default()];
     let mut saved: Vec<fastq::Position> = vec![];
     for op in ops {
@@ -732,9 +743,17 @@ fn run_fq(out: &mut dyn Write, cap: usize, src: Src, pol: PolSpec, ops: &[Op], l
                 }
                 Op::Iter(slot) => {
                     name = format!("I{}", slot);
-                    let set = &sets[*slot];
+                    let set = &mut sets[*slot];
                     guarded(|| {
+                        // re-iteration of a kept set; releasing its spare capacity in between must not change what it holds
+                        let before: Vec<String> = (&*set).into_iter().map(|r| dump_fq(&r)).collect();
+                        set.shrink_buffer_to_fit();
+                        let _ = set.buf_capacity();
+                        let set = &*set;
                         let recs: Vec<String> = set.into_iter().map(|r| dump_fq(&r)).collect();
+                        if recs != before {
+                            return "set-iter-contract-broken: contents changed by shrink_buffer_to_fit".to_string();
+                        }
                         if !iter_contract_ok(set.into_iter(), set.len()) {
                             return "set-iter-contract-broken".to_string();
                         }
@@ -940,6 +959,65 @@ fn main() {
         let t: Vec<&str> = line.split(' ').collect();
         if t[0] == "wr" {
             run_writer(&mut out, &t);
+        } else if t[0] == "ir" {
+            // ir <fa|fq> <cap|-> <hex input> <p|m>: the consuming iterator into_records() to its end (at most 1000
+            // items), over a FILE opened with from_path / from_path_with_capacity (p) or over a slice (m)
+            let inp = unhex(t[3]);
+            let cap: Option<usize> = t[2].parse().ok();
+            let file = format!("{}.input.{}", path, i);
+            let from_file = t[4] == "p";
+            if from_file {
+                std::fs::write(&file, &inp).unwrap();
+            }
+            let res = guarded(|| {
+                let mut lines: Vec<String> = vec![];
+                macro_rules! drain {
+                    ($rd:expr, $show:expr, $err:expr) => {{
+                        let mut it = $rd.into_records();
+                        let mut n = 0;
+                        loop {
+                            n += 1;
+                            match it.next() {
+                                None => {
+                                    lines.push("none".to_string());
+                                    // fused: asking again keeps reporting the end
+                                    if it.next().is_some() {
+                                        lines.push("item-after-end".to_string());
+                                    }
+                                    break;
+                                }
+                                Some(Err(e)) => lines.push($err(&e)),
+                                Some(Ok(o)) => lines.push($show(&o)),
+                            }
+                            if n >= 1000 {
+                                break;
+                            }
+                        }
+                    }};
+                }
+                let show_fa = |o: &fasta::OwnedRecord| format!("own {}.{}", hex(&o.head), hex(&o.seq));
+                let show_fq = |o: &fastq::OwnedRecord| format!("own {}.{}.{}", hex(&o.head), hex(&o.seq), hex(&o.qual));
+                match (t[1], from_file, cap) {
+                    ("fa", true, None) => drain!(fasta::Reader::from_path(&file).unwrap(), show_fa, fa_err),
+                    ("fa", true, Some(c)) => drain!(fasta::Reader::from_path_with_capacity(&file, c).unwrap(), show_fa, fa_err),
+                    ("fa", false, None) => drain!(fasta::Reader::new(&inp[..]), show_fa, fa_err),
+                    ("fa", false, Some(c)) => drain!(fasta::Reader::with_capacity(&inp[..], c), show_fa, fa_err),
+                    ("fq", true, None) => drain!(fastq::Reader::from_path(&file).unwrap(), show_fq, fq_err),
+                    ("fq", true, Some(c)) => drain!(fastq::Reader::from_path_with_capacity(&file, c).unwrap(), show_fq, fq_err),
+                    ("fq", false, None) => drain!(fastq::Reader::new(&inp[..]), show_fq, fq_err),
+                    (_, _, Some(c)) => drain!(fastq::Reader::with_capacity(&inp[..], c), show_fq, fq_err),
+                    (_, _, None) => drain!(fastq::Reader::new(&inp[..]), show_fq, fq_err),
+                }
+                lines.join("\n")
+            });
+            if from_file {
+                let _ = std::fs::remove_file(&file);
+            }
+            match res {
+                Outcome::Line(s) => writeln!(out, "{}", s).unwrap(),
+                Outcome::Hang => writeln!(out, "ir hang").unwrap(),
+                _ => writeln!(out, "ir panic").unwrap(),
+            }
         } else if t[0] == "pol" {
             use seq_io::policy::BufPolicy;
             let cs: Vec<usize> = list(t[2]).iter().map(|x| x.parse().unwrap()).collect();
